@@ -593,7 +593,7 @@ func blockReach(start *ssa.BasicBlock, cut func(from *ssa.BasicBlock, succIdx in
 	return seen
 }
 
-func fmtT(v any) string  { return fmt.Sprintf("%T", v) }
+func fmtT(v any) string   { return fmt.Sprintf("%T", v) }
 func fmtInt(i int) string { return fmt.Sprint(i) }
 
 // calleeName returns the (origin) name of the static callee of a call.
@@ -987,7 +987,6 @@ func isZero(v ssa.Value) bool {
 	return ok && k == 0
 }
 
-
 // callChain: the call instructions leading from `from` down to `to` when
 // every level has exactly one static call site of the next function (a
 // function split into stages); empty when from == to.
@@ -1008,7 +1007,6 @@ func callChain(p *Prog, from, to *ssa.Function, depth int) ([]ssa.Instruction, b
 	}
 	return append(up, sites[0].Instr), true
 }
-
 
 // selectCaseChan: when e is the edge taken because a select chose one of its
 // cases (go/ssa lowers `case <-ch:` to `if index == k`), the struct field the
@@ -1088,7 +1086,6 @@ func pollHelperTrueOn(call *ssa.Call, name string) bool {
 	})
 	return ok && sawTrue
 }
-
 
 // pkgOfFn: the package a function belongs to; instances of generic functions
 // have no Pkg of their own and belong to their origin's.
